@@ -17,7 +17,7 @@ import (
 // Cmd is one command of a queue.
 type Cmd struct {
 	// Kind: "h2d" (fill buffer Dst with pattern Seed), "kernel" (Dst[i] = Src[i]*Mul + Add), "d2h" (read buffer Src),
-	// "kernelp" (Dst[i] = Src[i]*Par[0] + Par[1]), "run" (the engine runs until all queues are empty before
+	// "h2dp" (fill a sub-range of buffer Dst), "kernelp" (Dst[i] = Src[i]*Par[0] + Par[1]), "run" (the engine runs until all queues are empty before
 	// anything else is enqueued)
 	Kind string `json:"kind"`
 	Src  int    `json:"src,omitempty"`
@@ -25,6 +25,9 @@ type Cmd struct {
 	Mul  uint32 `json:"mul,omitempty"`
 	Add  uint32 `json:"add,omitempty"`
 	Seed uint32 `json:"seed,omitempty"`
+	// Off, Len (kind "h2dp"): the dwords [Off, Off+Len) of buffer Dst are overwritten with pattern Seed
+	Off int `json:"off,omitempty"`
+	Len int `json:"len,omitempty"`
 	// Par (kind "kernelp"): the buffer whose first two dwords the kernel reads
 	// with a scalar load and uses as multiplier and addend
 	Par int `json:"par,omitempty"`
@@ -140,9 +143,31 @@ func GenWith(t *rapid.T, o GenOpts) Case {
 		n := rapid.IntRange(1, 8).Draw(t, "ncmds")
 		for i := 0; i < n; i++ {
 			var cmd Cmd
-			cmd.Kind = rapid.SampledFrom([]string{"h2d", "kernel", "kernel", "kernelp", "d2h"}).Draw(t, "kind")
+			kinds := []string{"h2d", "kernel", "kernel", "kernelp", "d2h", "h2dp"}
+			if o.TwoGPUs {
+				// where the pages of a buffer may lie on different GPUs, copies into parts of it matter most
+				kinds = append(kinds, "h2dp", "d2h")
+			}
+			cmd.Kind = rapid.SampledFrom(kinds).Draw(t, "kind")
 			cmd.Src = rapid.IntRange(0, c.NBuf-1).Draw(t, "src")
 			cmd.Dst = rapid.IntRange(0, c.NBuf-1).Draw(t, "dst")
+			if cmd.Kind == "h2dp" {
+				// a copy of less than a page; with buffers of several pages mostly one that starts
+				// shortly before a page boundary (1024 dwords) and ends behind it
+				const pageDwords = 1024
+				if c.N > pageDwords && rapid.IntRange(0, 3).Draw(t, "partstraddle") > 0 {
+					b := pageDwords * rapid.IntRange(1, (c.N-1)/pageDwords).Draw(t, "partpage")
+					cmd.Off = b - rapid.IntRange(1, 300).Draw(t, "partbefore")
+					max := c.N - cmd.Off
+					if max > pageDwords-1 {
+						max = pageDwords - 1
+					}
+					cmd.Len = rapid.IntRange(b-cmd.Off+1, max).Draw(t, "partlen")
+				} else {
+					cmd.Off = rapid.IntRange(0, c.N-1).Draw(t, "partoff")
+					cmd.Len = rapid.IntRange(1, c.N-cmd.Off).Draw(t, "partlen")
+				}
+			}
 			if cmd.Kind == "kernelp" && c.N < 2 {
 				cmd.Kind = "kernel"
 			}
@@ -167,6 +192,26 @@ func GenWith(t *rapid.T, o GenOpts) Case {
 	c.RunEvery = rapid.SampledFrom([]int{0, 0, 1, 2}).Draw(t, "runevery")
 	c.ShareCO = rapid.Bool().Draw(t, "shareco") || scalarMotif
 	return c
+}
+
+// LimitN lowers the buffer size to at most n dwords and keeps the sub-range copies inside it.
+func (c *Case) LimitN(n int) {
+	if c.N <= n {
+		return
+	}
+	c.N = n
+	for q := range c.Queues {
+		for i := range c.Queues[q].Cmds {
+			cmd := &c.Queues[q].Cmds[i]
+			if cmd.Kind != "h2dp" {
+				continue
+			}
+			cmd.Off %= n
+			if cmd.Off+cmd.Len > n {
+				cmd.Len = n - cmd.Off
+			}
+		}
+	}
 }
 
 // Pattern is the deterministic fill pattern of a seed.
@@ -335,7 +380,7 @@ func Run(c Case) (res Result) {
 		qs[i] = st
 		ctxQueues[qu.Ctx]++
 	}
-	kernels, scalarKernels := 0, 0
+	kernels, scalarKernels, partial := 0, 0, 0
 	coCache := map[[2]uint32]*insts.KernelCodeObject{}
 	kernelFor := func(mul, add uint32) *insts.KernelCodeObject {
 		if !c.ShareCO {
@@ -394,6 +439,16 @@ func Run(c Case) (res Result) {
 					kernels++
 					d.EnqueueLaunchKernel(st.q, kernelFor(cmd.Mul, cmd.Add), [3]uint32{uint32(c.N), 1, 1}, [3]uint16{64, 1, 1},
 						&ScaleArgs{In: st.bufs[cmd.Src], Out: st.bufs[cmd.Dst]})
+				case "h2dp":
+					if cmd.Off < 0 || cmd.Len < 1 || cmd.Off+cmd.Len > c.N {
+						panic(fmt.Sprintf("harness: sub-range copy [%d,+%d) outside a buffer of %d dwords", cmd.Off, cmd.Len, c.N))
+					}
+					data := Pattern(cmd.Seed, cmd.Len)
+					m := append([]uint32(nil), st.model[cmd.Dst]...)
+					copy(m[cmd.Off:], data)
+					st.model[cmd.Dst] = m
+					partial++
+					d.EnqueueMemCopyH2D(st.q, st.bufs[cmd.Dst]+driver.Ptr(4*cmd.Off), append([]uint32(nil), data...))
 				case "run":
 					// the engine runs until every queue is empty before the next command is enqueued
 					if err := pl.Run(allQueues()...); err != nil {
@@ -462,6 +517,9 @@ func Run(c Case) (res Result) {
 	}
 	if kernels >= 2 {
 		res.Labels = append(res.Labels, "several-kernels")
+	}
+	if partial >= 1 {
+		res.Labels = append(res.Labels, "copy-into-a-part-of-a-buffer")
 	}
 	if scalarKernels >= 1 {
 		res.Labels = append(res.Labels, "kernel-reading-device-data-with-scalar-loads")
